@@ -1,5 +1,6 @@
 import SqlModel.Control
 import SqlModel.Generated.ControlCodec
+import SqlProps.C01
 /-!
 # C19 — all input forms and front ends give the same result
 
@@ -47,5 +48,33 @@ theorem unicode_escape_counterexample :
       else .ok b
     (normaliseInput decode "utf-8" "unicode-escape" (.bytes [233, 92, 110]) none).toOption ≠
       (normaliseInput decode "utf-8" "latin-1" (.bytes [233, 92, 110]) none).toOption := by decide
+
+/-! ## byte-order mark
+
+The decoding itself is a parameter of the model (`Decoder`).  What the model fixes is *which* codec is asked: `primary_is_utf8` pins plain
+`utf-8` — whose CPython implementation decodes the signature bytes `EF BB BF` to U+FEFF and keeps it, unlike `utf-8-sig` — so the
+assumption about CPython needed below is exactly `decode "utf-8" (EF BB BF ++ b) = ok (U+FEFF :: t)` (sampled by stream S-NORM). -/
+
+/-- UTF-8 bytes that start with the signature `EF BB BF`, passed without an encoding, normalise to a text whose first code point is U+FEFF:
+the head of `get_tokens` does not strip it -/
+theorem bom_kept_by_normalise (decode : Decoder) (fb : String) (b : List Nat) (t : Text)
+    (h : decode "utf-8" (0xEF :: 0xBB :: 0xBF :: b) = .ok (0xFEFF :: t)) :
+    normaliseInput decode Gen.primaryCodec fb (.bytes (0xEF :: 0xBB :: 0xBF :: b)) none = .ok (0xFEFF :: t) := by
+  rw [primary_is_utf8]
+  simp [normaliseInput, Option.filter, h]
+
+/-- a str (or stream) that starts with U+FEFF is passed on unchanged -/
+theorem bom_kept_str (decode : Decoder) (pr fb : String) (t : Text) (enc : Option String) :
+    normaliseInput decode pr fb (.str (0xFEFF :: t)) enc = .ok (0xFEFF :: t) ∧
+    normaliseInput decode pr fb (.stream (0xFEFF :: t)) enc = .ok (0xFEFF :: t) := ⟨rfl, rfl⟩
+
+/-- **the U+FEFF reaches the tokens**: bytes `EF BB BF …` without an encoding are tokenized to tokens whose values spell U+FEFF followed by
+the rest of the decoded text — nothing dropped, nothing added (glue of `bom_kept_by_normalise` and `C01.lex_keeps_bom`) -/
+theorem bom_survives_to_tokens (decode : Decoder) (fb : String) (b : List Nat) (t : Text)
+    (h : decode "utf-8" (0xEF :: 0xBB :: 0xBF :: b) = .ok (0xFEFF :: t)) :
+    ∃ text ts, normaliseInput decode Gen.primaryCodec fb (.bytes (0xEF :: 0xBB :: 0xBF :: b)) none = .ok text ∧
+      lex defaultCfg text.toArray = .ok ts ∧ (ts.map (·.val)).flatten = 0xFEFF :: t := by
+  obtain ⟨ts, h1, h2⟩ := C01.lex_keeps_bom t
+  exact ⟨0xFEFF :: t, ts, bom_kept_by_normalise decode fb b t h, h1, h2⟩
 
 end Sql.C19
